@@ -10,7 +10,91 @@ Local Open Scope N_scope.
 Definition bit_member (tbl : list N) (c : N) : bool :=
   (c <? 256) && N.testbit (nth (N.to_nat (c / 8)) tbl 0) (c mod 8).
 
-Module T := Upa.Gen.Tables_cpp11.
+(* an ordinary module of definitions (a module alias of a file cannot be extracted monolithically) *)
+Module T.
+  Definition cplusplus := Upa.Gen.Tables_cpp11.cplusplus.
+  Definition upa_cpp_17 := Upa.Gen.Tables_cpp11.upa_cpp_17.
+  Definition set_fragment := Upa.Gen.Tables_cpp11.set_fragment.
+  Definition wide16_fragment := Upa.Gen.Tables_cpp11.wide16_fragment.
+  Definition wide32_fragment := Upa.Gen.Tables_cpp11.wide32_fragment.
+  Definition narrow_disagree_fragment := Upa.Gen.Tables_cpp11.narrow_disagree_fragment.
+  Definition set_query := Upa.Gen.Tables_cpp11.set_query.
+  Definition wide16_query := Upa.Gen.Tables_cpp11.wide16_query.
+  Definition wide32_query := Upa.Gen.Tables_cpp11.wide32_query.
+  Definition narrow_disagree_query := Upa.Gen.Tables_cpp11.narrow_disagree_query.
+  Definition set_special_query := Upa.Gen.Tables_cpp11.set_special_query.
+  Definition wide16_special_query := Upa.Gen.Tables_cpp11.wide16_special_query.
+  Definition wide32_special_query := Upa.Gen.Tables_cpp11.wide32_special_query.
+  Definition narrow_disagree_special_query := Upa.Gen.Tables_cpp11.narrow_disagree_special_query.
+  Definition set_path := Upa.Gen.Tables_cpp11.set_path.
+  Definition wide16_path := Upa.Gen.Tables_cpp11.wide16_path.
+  Definition wide32_path := Upa.Gen.Tables_cpp11.wide32_path.
+  Definition narrow_disagree_path := Upa.Gen.Tables_cpp11.narrow_disagree_path.
+  Definition set_raw_path := Upa.Gen.Tables_cpp11.set_raw_path.
+  Definition wide16_raw_path := Upa.Gen.Tables_cpp11.wide16_raw_path.
+  Definition wide32_raw_path := Upa.Gen.Tables_cpp11.wide32_raw_path.
+  Definition narrow_disagree_raw_path := Upa.Gen.Tables_cpp11.narrow_disagree_raw_path.
+  Definition set_posix_path := Upa.Gen.Tables_cpp11.set_posix_path.
+  Definition wide16_posix_path := Upa.Gen.Tables_cpp11.wide16_posix_path.
+  Definition wide32_posix_path := Upa.Gen.Tables_cpp11.wide32_posix_path.
+  Definition narrow_disagree_posix_path := Upa.Gen.Tables_cpp11.narrow_disagree_posix_path.
+  Definition set_userinfo := Upa.Gen.Tables_cpp11.set_userinfo.
+  Definition wide16_userinfo := Upa.Gen.Tables_cpp11.wide16_userinfo.
+  Definition wide32_userinfo := Upa.Gen.Tables_cpp11.wide32_userinfo.
+  Definition narrow_disagree_userinfo := Upa.Gen.Tables_cpp11.narrow_disagree_userinfo.
+  Definition set_component := Upa.Gen.Tables_cpp11.set_component.
+  Definition wide16_component := Upa.Gen.Tables_cpp11.wide16_component.
+  Definition wide32_component := Upa.Gen.Tables_cpp11.wide32_component.
+  Definition narrow_disagree_component := Upa.Gen.Tables_cpp11.narrow_disagree_component.
+  Definition cls_ascii_domain := Upa.Gen.Tables_cpp11.cls_ascii_domain.
+  Definition wide16_ascii_domain := Upa.Gen.Tables_cpp11.wide16_ascii_domain.
+  Definition wide32_ascii_domain := Upa.Gen.Tables_cpp11.wide32_ascii_domain.
+  Definition narrow_disagree_ascii_domain := Upa.Gen.Tables_cpp11.narrow_disagree_ascii_domain.
+  Definition cls_forbidden_domain := Upa.Gen.Tables_cpp11.cls_forbidden_domain.
+  Definition wide16_forbidden_domain := Upa.Gen.Tables_cpp11.wide16_forbidden_domain.
+  Definition wide32_forbidden_domain := Upa.Gen.Tables_cpp11.wide32_forbidden_domain.
+  Definition narrow_disagree_forbidden_domain := Upa.Gen.Tables_cpp11.narrow_disagree_forbidden_domain.
+  Definition cls_forbidden_host := Upa.Gen.Tables_cpp11.cls_forbidden_host.
+  Definition wide16_forbidden_host := Upa.Gen.Tables_cpp11.wide16_forbidden_host.
+  Definition wide32_forbidden_host := Upa.Gen.Tables_cpp11.wide32_forbidden_host.
+  Definition narrow_disagree_forbidden_host := Upa.Gen.Tables_cpp11.narrow_disagree_forbidden_host.
+  Definition cls_hex_digit := Upa.Gen.Tables_cpp11.cls_hex_digit.
+  Definition wide16_hex_digit := Upa.Gen.Tables_cpp11.wide16_hex_digit.
+  Definition wide32_hex_digit := Upa.Gen.Tables_cpp11.wide32_hex_digit.
+  Definition narrow_disagree_hex_digit := Upa.Gen.Tables_cpp11.narrow_disagree_hex_digit.
+  Definition cls_ipv4_char := Upa.Gen.Tables_cpp11.cls_ipv4_char.
+  Definition wide16_ipv4_char := Upa.Gen.Tables_cpp11.wide16_ipv4_char.
+  Definition wide32_ipv4_char := Upa.Gen.Tables_cpp11.wide32_ipv4_char.
+  Definition narrow_disagree_ipv4_char := Upa.Gen.Tables_cpp11.narrow_disagree_ipv4_char.
+  Definition cls_scheme_char := Upa.Gen.Tables_cpp11.cls_scheme_char.
+  Definition wide16_scheme_char := Upa.Gen.Tables_cpp11.wide16_scheme_char.
+  Definition wide32_scheme_char := Upa.Gen.Tables_cpp11.wide32_scheme_char.
+  Definition narrow_disagree_scheme_char := Upa.Gen.Tables_cpp11.narrow_disagree_scheme_char.
+  Definition cls_ascii_digit := Upa.Gen.Tables_cpp11.cls_ascii_digit.
+  Definition wide16_ascii_digit := Upa.Gen.Tables_cpp11.wide16_ascii_digit.
+  Definition wide32_ascii_digit := Upa.Gen.Tables_cpp11.wide32_ascii_digit.
+  Definition narrow_disagree_ascii_digit := Upa.Gen.Tables_cpp11.narrow_disagree_ascii_digit.
+  Definition cls_ascii_alpha := Upa.Gen.Tables_cpp11.cls_ascii_alpha.
+  Definition wide16_ascii_alpha := Upa.Gen.Tables_cpp11.wide16_ascii_alpha.
+  Definition wide32_ascii_alpha := Upa.Gen.Tables_cpp11.wide32_ascii_alpha.
+  Definition narrow_disagree_ascii_alpha := Upa.Gen.Tables_cpp11.narrow_disagree_ascii_alpha.
+  Definition tab_kEncByte := Upa.Gen.Tables_cpp11.tab_kEncByte.
+  Definition tab_urlencode_obs := Upa.Gen.Tables_cpp11.tab_urlencode_obs.
+  Definition tab_kHexCharLookup := Upa.Gen.Tables_cpp11.tab_kHexCharLookup.
+  Definition tab_kCharToHexLookup := Upa.Gen.Tables_cpp11.tab_kCharToHexLookup.
+  Definition tab_hex_char_to_num := Upa.Gen.Tables_cpp11.tab_hex_char_to_num.
+  Definition tab_pct_byte_obs := Upa.Gen.Tables_cpp11.tab_pct_byte_obs.
+  Definition tab_lead3 := Upa.Gen.Tables_cpp11.tab_lead3.
+  Definition tab_lead4 := Upa.Gen.Tables_cpp11.tab_lead4.
+  Definition tab_replacement_utf8 := Upa.Gen.Tables_cpp11.tab_replacement_utf8.
+  Definition tab_digit_chars := Upa.Gen.Tables_cpp11.tab_digit_chars.
+  Definition tab_kPartStart := Upa.Gen.Tables_cpp11.tab_kPartStart.
+  Definition tab_kPartFlagMask := Upa.Gen.Tables_cpp11.tab_kPartFlagMask.
+  Definition tab_flags := Upa.Gen.Tables_cpp11.tab_flags.
+  Definition schemes := Upa.Gen.Tables_cpp11.schemes.
+  Definition schemes_name_mismatch := Upa.Gen.Tables_cpp11.schemes_name_mismatch.
+  Definition scheme_strings_tested := Upa.Gen.Tables_cpp11.scheme_strings_tested.
+End T.
 
 Definition in_fragment_set := bit_member T.set_fragment.
 Definition in_query_set := bit_member T.set_query.
